@@ -953,6 +953,10 @@ class AT:
                                   f"applied to the row/grid axis {a} of a tensor with axes {self.axes} (an axis of a different "
                                   f"role was probably meant, e.g. the trailing component axis)")
                 elif isinstance(it, int):
+                    if a in UNIT_AXES:
+                        if it not in (0, -1):
+                            raise Finding(f"index {it} out of range for the single-row axis {a}")
+                        continue          # the only row of a single-row axis: the axis goes, the row stays
                     if a in self.deps():
                         raise Top(f"integer index on the varying symbolic axis {a}")
                     # uniform along a: drop the axis
